@@ -141,20 +141,30 @@ def value_cases(draw, tier):
     cuts = draw(intervals(n, ms))
     # another object of the same class, fitted on other data of the same shape, is alive and used in between
     bystander = draw(st.sampled_from([None, None, "fitted_before", "fitted_after"]))
+    col_affine = None
+    if p >= 2 and cost != "GaussianCovCost" and dup is None and draw(st.integers(0, 4)) == 0:
+        # columns in mixed units: a large one (1e5 level, unit 10..1e3) somewhere, the others small (unit 1e-3..1)
+        big = draw(st.integers(0, p - 1))
+        col_affine = {"scale": [draw(st.sampled_from([10.0, 1e3])) if j == big else draw(st.sampled_from([1e-3, 1.0, 0.05])) for j in range(p)],
+                      "level": [draw(st.sampled_from([101325.0, 1e5, 3e6])) if j == big else draw(st.sampled_from([0.0, 0.5])) for j in range(p)]}
     X = draw(D.any_matrix(n, p))  # bulk data last (see strategies/data.py)
     if dup is not None:
         for row in X:
             row[dup] = row[0]
-    return {"cost": cost, "param": param, "X": X, "cuts": cuts, "bystander": bystander}
+    return {"cost": cost, "param": param, "X": X, "cuts": cuts, "bystander": bystander, "col_affine": col_affine}
 
 
 def expected_row(cost, param, X, s, e, n_fit, M):
     """Returns ('interval', lo, hi) per column, ('illcond',), or ('must_raise',)."""
     rows = X[s:e]
     p = X.shape[1]
+    if cost in ("L2Cost", "GaussianVarCost"):
+        # per-column costs: the rounding error of a column depends on the magnitude of THAT column (a recording may hold a
+        # pressure in Pa next to a displacement in mm)
+        M = np.maximum(np.max(np.abs(X), axis=0), 1e-300)
     if cost == "L2Cost":
         mean = None if param is None else param["mean"]
-        Mm = M if mean is None else max(M, float(np.max(np.abs(np.asarray(mean, dtype=float)))))
+        Mm = M if mean is None else np.maximum(M, np.abs(np.broadcast_to(np.asarray(mean, dtype=float).reshape(-1), (p,))))
         B = ref.error_bound(n_fit, Mm)
         v = ref.l2_cost_direct(rows, mean)
         return ("interval", v - B - 1e-12 * np.abs(v), v + B + 1e-12 * np.abs(v))
@@ -188,7 +198,9 @@ def check_values(case):
     cost, param = case["cost"], case["param"]
     X = np.asarray(case["X"], dtype=float)
     n, p = X.shape
-    M = D.max_abs(case["X"])
+    if case.get("col_affine"):  # columns in different units and on different levels
+        X = X * np.asarray(case["col_affine"]["scale"], dtype=float) + np.asarray(case["col_affine"]["level"], dtype=float)
+    M = float(np.max(np.abs(X))) if case.get("col_affine") else D.max_abs(case["X"])
     cuts = np.asarray(case["cuts"], dtype=np.int64)
     bystander = case.get("bystander")
     with sut(f"{cost}.fit"):
